@@ -162,6 +162,7 @@ def diff_streams(lines, answers):
         return fails
     case_start = 0
     failed_cases = set()
+    violated_cases = set()
     for i, (l, a) in enumerate(zip(lines, answers)):
         if l.startswith('case '):
             case_start = i
@@ -178,14 +179,18 @@ def diff_streams(lines, answers):
         if ' => ' not in l:
             continue
         op, impl = l.split(' => ', 1)
-        if case_start in failed_cases:
-            continue
         if spec != '*' and norm_err(impl) != norm_err(spec):
+            if case_start in violated_cases:
+                continue
+            violated_cases.add(case_start)
+            # a property-level violation supersedes an earlier drift in the same case
+            fails[:] = [f for f in fails if not (f['kind'] == 'drift' and f['case_start'] == case_start)]
             fails.append(dict(kind='violation', line_no=i, case_start=case_start, op=op, impl=impl, model=model, spec=spec))
-            failed_cases.add(case_start)
         elif impl != model:
-            fails.append(dict(kind='drift', line_no=i, case_start=case_start, op=op, impl=impl, model=model, spec=spec))
+            if case_start in failed_cases or case_start in violated_cases:
+                continue
             failed_cases.add(case_start)
+            fails.append(dict(kind='drift', line_no=i, case_start=case_start, op=op, impl=impl, model=model, spec=spec))
     return fails
 
 
@@ -348,6 +353,7 @@ def check(pid, tier, seed, replay=None):
                     if k not in ('cases', 'lines', 'distinct_nontrivial', 'distribution', 'samples', 'evaluations', 'traces_validated'):
                         extra[k] = v
                 fails = diff_streams(out['lines'], out['answers'])
+                fails.sort(key=lambda f: 0 if f['kind'] == 'protocol' else 1 if f['kind'] == 'violation' else 2)
                 reported = 0
                 for f in fails:
                     cl = case_text(out['lines'], f['case_start'], f['line_no'])
